@@ -43,9 +43,11 @@ def run(ctx):
     ctx.run_rule("R4-counters", r4_counters, F)
     ctx.run_rule("R5-append-position", r5_append, F, False)
     ctx.run_rule("R7-commit", r7_commit, F)
+    ctx.run_rule("R2-copy-loop", r2_copy_loop, F)
     A = ctx.facts("A", required=False)
     if A is not None:
         ctx.run_rule("R6-async-siblings", r6_async, A)
+        ctx.run_rule("R3-truncate", r3_truncate, A, ("prepare_io_buf", "prepare_mut_io_buf"))
     else:
         ctx.notes.append("configuration A unavailable: async sibling rules skipped")
     ctx.assumptions += ["vm-memory's VolatileSlice operations are correct", "byte contents and concurrent guest writes are not examined"]
@@ -268,10 +270,9 @@ def r3_space_check(ctx, F):
     ctx.floor("R3-space-check", 40)
 
 
-def r3_truncate(ctx, F):
+def r3_truncate(ctx, F, names=("allocate_file_volatile_slice", "mark_dirty")):
     """Slice allocators hand out at most `count` bytes: a buffer longer than the remainder is cut with
     subslice(0, rem) on the `len > rem` edge, and rem decreases by the length handed out."""
-    names = ["allocate_file_volatile_slice", "mark_dirty"]
     for nm in names:
         b = F.method(IOB, nm)
         ctx.fn_seen(b)
@@ -292,6 +293,16 @@ def r3_truncate(ctx, F):
                for cond in [v.operand(b.term(bb)[1], bb, len(b.stmts(bb)))]]
         ctx.check("R3-truncate", nm + "/stop", any(t.startswith("Eq(") and "0" in t and "rem" in t.replace("loop(rem)", "rem") or t.startswith("Eq(0, ") for t in txt),
                   "%s: the loop no longer stops when the remaining count is 0" % nm, loc=b.loc())
+        # ... and it is the `== 0` edge that leaves the loop
+        from rules import c10
+        ov = vf.VF(b, inline_depth=0, opaque_loops=True)
+        pol = []
+        for h in sorted(ov.loop_headers()):
+            for (cond, edges, u, g_) in c10.loop_switches(b, ov, h):
+                if cond in ("Eq(0, loop(rem))", "Eq(loop(rem), 0)"):
+                    pol.append(edges)
+        ctx.check("R3-truncate", nm + "/stop-polarity", pol == [{0: "loop", "otherwise": "exit"}],
+                  "%s: the walk must end exactly when the remaining count is 0 and go on otherwise (edges of the `rem == 0` test: %s)" % (nm, pol), loc=b.loc())
         subs_ = []
         for bb in b.reachable():
             for s in b.stmts(bb):
@@ -475,7 +486,65 @@ def r6_async(ctx, A):
                       "%s::%s: %s can run before the space check" % (tag, owner.name, sorted(set(c.name for c in bad))), loc=b.loc())
     r5_append_async(ctx, A)
     r6_vectored(ctx, A)
+    r6_effects(ctx, A)
     ctx.floor("R6-async-siblings", 8)
+
+
+def r2_copy_loop(ctx, F):
+    """VirtioFsWriter::write copies the caller's bytes into the guest slices it was handed: per slice min(remaining, slice
+    length) bytes from the current source position to the slice's start, the source advances by that amount and the total
+    returned is the sum."""
+    ms = [x for x in F.fns.values() if x.self_adt == VFW and x.name == "write" and x.trait == "std::io::Write"]
+    if len(ms) != 1:
+        raise core.Anchor("impl io::Write for VirtioFsWriter::write (%d)" % len(ms))
+    cls = [c for c in F.closures_of(ms[0].key) if any(x.name == "copy_nonoverlapping" for x in live_calls(c))]
+    if not ctx.check("R2-copy-loop", "VirtioFsWriter::write/closure", len(cls) == 1, "VirtioFsWriter::write: %d copying closures" % len(cls), loc=ms[0].loc()):
+        return
+    cl = cls[0]
+    ctx.fn_seen(ms[0])
+    v = vf.VF(cl, inline_depth=0, opaque_loops=True)
+    cp = [c for c in live_calls(cl) if c.name == "copy_nonoverlapping"]
+    el = "some(Iter::next(loop(iter)))"
+    n = "cmp::min(impl [T]::len(loop(rem)), FileVolatileSlice::len(%s))" % el
+    a = [vf.render(x, cl, short=True, vfx=v) for x in v.call_args(cp[0])] if len(cp) == 1 else []
+    ctx.check("R2-copy-loop", "VirtioFsWriter::write/copy", a == ["impl [T]::as_ptr(loop(rem))", "FileVolatileSlice::as_ptr(%s)" % el, n],
+              "VirtioFsWriter::write copies (%s); required (source position, slice start, min(remaining, slice length))" % ", ".join(x[:70] for x in a), loc=cl.loc())
+    hs = sorted(v.loop_headers())
+    ok = len(hs) == 1
+    if ok:
+        def ld(nm):
+            l = [i for i in range(len(cl.locals)) if cl.local_name(i) == nm]
+            if not l:
+                return None
+            init, step = v.loop_def(l[0], hs[0])
+            return ([vf.render(x[1], cl, short=True, vfx=v) for x in init], [vf.render(x[1], cl, short=True, vfx=v) for x in step])
+        rem, tot = ld("rem"), ld("total")
+        ok = rem == (["^buf"], ["Index::index(loop(rem), RangeFrom{start: %s})" % n]) and tot == (["0"], ["Add(%s, loop(total))" % n])
+    ctx.check("R2-copy-loop", "VirtioFsWriter::write/advance", ok, "VirtioFsWriter::write: the source must advance by, and the total grow by, the amount copied per slice", loc=cl.loc())
+    ctx.check("R2-copy-loop", "VirtioFsWriter::write/result", vf.render(v.ret(), cl, short=True, vfx=v) == "Ok(loop(total))", "VirtioFsWriter::write does not return the total copied", loc=cl.loc())
+
+
+def r6_effects(ctx, A):
+    """FuseDevWriter's async writers have the effects of their sync siblings: each byte-slice argument is appended to the
+    reply buffer once, in argument order (buffered mode); every direct device write and every read into the buffer is
+    accounted with account_written(<its result>)."""
+    from rules.c20 import async_frame
+    for m in sorted([x for x in A.fns.values() if x.self_adt == FDW and x.name in ("async_write", "async_write2", "async_write3", "async_write_from_at")
+                     and x.key in A.async_fns], key=lambda x: x.line):
+        body, v = async_frame(A, m)
+        ctx.fn_seen(m)
+        fam = list({f.key: f for f in [body] + list(A.closures_of(body.key)) + list(A.closures_of(m.key))}.values())
+        slices = [m.local_name(i) for i in range(2, m.argc + 1) if m.local_ty(i) in ("&[u8]", "&'_ [u8]") or m.local_ty(i).endswith("[u8]")]
+        ext = [vf.render(v.call_args(c)[1], m, short=True, vfx=v) for c in live_calls(body) if c.name == "extend_from_slice"]
+        if m.name != "async_write_from_at":
+            ctx.check("R6-async-siblings", "FuseDevWriter::%s/appends-each-slice" % m.name, ext == slices and bool(slices),
+                      "FuseDevWriter::%s appends %s to the reply buffer; its byte-slice arguments are %s (each once, in order)" % (m.name, ext, slices), loc=m.loc())
+        raw = [c for f in fam for c in live_calls(f) if c.name in ("pwrite", "pwritev") and (c.fn or "").startswith("nix::")]
+        rd = [c for f in fam for c in live_calls(f) if c.name in ("async_read_at_volatile", "async_read_vectored_at_volatile")]
+        acc = [c for f in fam for c in live_calls(f) if c.name == "account_written"]
+        need = (1 if rd else 0) + (len(raw) if m.name != "async_write_from_at" else 0)
+        ctx.check("R6-async-siblings", "FuseDevWriter::%s/accounts-written" % m.name, len(acc) >= need and (need == 0 or bool(acc)),
+                  "FuseDevWriter::%s performs %d direct write(s)/read(s) into the buffer but accounts %d of them with account_written" % (m.name, need, len(acc)), loc=m.loc())
 
 
 def r6_vectored(ctx, A):
